@@ -153,6 +153,11 @@ def aggregate(prop, tier, seed, module, results, failures, wall):
     # write replays
     rdir = os.path.join(OUT, 'replays', prop)
     lines = []
+    # replays of an earlier run with the same (tier, seed) are superseded
+    import glob
+    for old in glob.glob(os.path.join(rdir, '%s_%s_s%d_*.json' % (
+            prop, tier, seed))):
+        os.remove(old)
     for mech, vs in sorted(new.items()):
         os.makedirs(rdir, exist_ok=True)
         h = hashlib.sha1(mech.encode()).hexdigest()[:10]
